@@ -587,9 +587,11 @@ ${html_comment}"""
 
     def __call__(self, environ, start_response):
         req = Request(environ)
-        # the location as the application gave it: this instance may serve
-        # other requests, each to be resolved against its own URL
-        location = self.location
+        # the Location header(s) as the application gave them: this instance
+        # may serve other requests, each to be resolved against its own URL.
+        # They are put back as they were found (not through the ``location``
+        # setter, which refuses values that ``headers=`` let in).
+        given = [h for h in self._headerlist if h[0].lower() == "location"]
 
         try:
             if self.add_slash:
@@ -612,7 +614,8 @@ ${html_comment}"""
 
             return super().__call__(environ, start_response)
         finally:
-            self.location = location
+            del self.location
+            self._headerlist.extend(given)
 
 
 class HTTPMultipleChoices(_HTTPMove):
